@@ -174,3 +174,47 @@ func checkOuterJoinPadding(c *core.Ctx, rule string) {
 		c.Unknown(rule, key, fn.Decl.Pos(), fmt.Sprintf("%d of the 2 padding blocks found", seen))
 	}
 }
+
+// checkCoalesceType (COALT): COALESCE yields its first non-NULL argument, so its static type is the sum of its
+// arguments' types; NULL may be removed from it only when some argument provably never is NULL — the sound test is
+// `octosql.Null.Is(t) == TypeRelationIsnt` (a bare NULL literal and Any are not unions, yet can be NULL).
+func checkCoalesceType(c *core.Ctx, rule string) {
+	p := c.Prog
+	fn := p.Func("logical", "(*Coalesce).Typecheck")
+	key := "logical.(*Coalesce).Typecheck"
+	if fn == nil {
+		c.Unknown(rule, key, 0, "anchor not found")
+		return
+	}
+	c.SawFunc(key)
+	info := fn.Info()
+	sums, bad := 0, ""
+	core.WalkStack(fn.Decl.Body, func(n ast.Node, stack []ast.Node) bool {
+		call, ok := n.(*ast.CallExpr)
+		if !ok {
+			return true
+		}
+		switch p.CalleeName(info, call) {
+		case "octosql.TypeSum":
+			sums++
+		case "octosql.NonNullable":
+			guarded := false
+			for i := len(stack) - 1; i >= 0; i-- {
+				if is, ok := stack[i].(*ast.IfStmt); ok && i+1 < len(stack) && stack[i+1] == ast.Node(is.Body) {
+					cs := core.ExprStr(is.Cond)
+					if strings.HasPrefix(cs, "octosql.Null.Is(") && strings.HasSuffix(cs, ") == octosql.TypeRelationIsnt") {
+						guarded = true
+					}
+				}
+			}
+			if !guarded && bad == "" {
+				bad = fmt.Sprintf("%s: NULL is removed from COALESCE's type without establishing that an argument can never be NULL (octosql.Null.Is(t) == TypeRelationIsnt): a bare NULL literal or an Any-typed argument is not a union and still can be NULL, so COALESCE(a, NULL) is declared non-nullable and yields NULL", p.Pos(call.Pos()))
+			}
+		}
+		return true
+	})
+	if bad == "" && sums == 0 {
+		bad = "COALESCE's type is not built with TypeSum over its arguments' types"
+	}
+	c.Decide(bad == "", rule, key, fn.Decl.Pos(), sums+1, "the type is the sum of the arguments' types; NULL is removed only under a sound non-nullability test", bad)
+}
